@@ -21,18 +21,26 @@ RULE = ('reference/decoy pairs as in C07/C08 whose inter-chain distances are not
 
 MEASURES = ['irmsd_fast', 'irmsd_sql', 'lrmsd_fast', 'lrmsd_sql', 'fnat_fast', 'fnat_sql', 'clashes']
 
+FLAGCAR = [None]      # how the enforcement flag of the pair under test is carried: None (Python bool), 'npbool', 'int01'
+
 def score_all(pdb2sql, dp, rp, enforce, measures=MEASURES):
     out = {}
+    _call = SC.call
+    class SCx:                 # SC.call with the flag carrier of this pair
+        @staticmethod
+        def call(*a, **k): return _call(*a, flagcar=FLAGCAR[0], **k)
+    import numpy as _np
+    enforce_c = _np.bool_(enforce) if FLAGCAR[0] == 'npbool' else int(enforce) if FLAGCAR[0] == 'int01' else enforce
     for m in measures:
         if m.startswith('irmsd') or m.startswith('lrmsd'):
-            res, _ = SC.call(pdb2sql, m, dp, rp, enforce, method='svd')
+            res, _ = SCx.call(pdb2sql, m, dp, rp, enforce, method='svd')
         else:
             with contextlib.redirect_stdout(io.StringIO()):
                 try:
                     if m == 'clashes':
                         res = ['OK', int(pdb2sql.StructureSimilarity.compute_clashes(dp))]
                     else:
-                        sim = pdb2sql.StructureSimilarity(dp, rp, enforce_residue_matching=enforce)
+                        sim = pdb2sql.StructureSimilarity(dp, rp, enforce_residue_matching=enforce_c)
                         v = sim.compute_fnat_fast() if m == 'fnat_fast' else sim.compute_fnat_pdb2sql()
                         res = ['OK', int(round(float(v) * 10**6))]
                 except BaseException as e:
@@ -44,14 +52,14 @@ def score_all(pdb2sql, dp, rp, enforce, measures=MEASURES):
         # reordered decoy gives the same value or an explicit error here too
         for r in ('irmsd_fast', 'lrmsd_fast'):
             if r in measures:
-                out[r + '_nocheck'], _ = SC.call(pdb2sql, r, dp, rp, enforce, method='svd', check=False)
+                out[r + '_nocheck'], _ = SCx.call(pdb2sql, r, dp, rp, enforce, method='svd', check=False)
     if 'irmsd_fast' in measures:
         # the zone written to a file by one call and read back by the next (residue numbers as they are in these files)
         zf = dp + '.izone'
         for f in (zf,):
             if os.path.exists(f): os.remove(f)
-        SC.call(pdb2sql, 'irmsd_fast', dp, rp, enforce, method='svd', zonefile=zf)
-        out['irmsd_fast_zonefile'], _ = SC.call(pdb2sql, 'irmsd_fast', dp, rp, enforce, method='svd', zonefile=zf)
+        SCx.call(pdb2sql, 'irmsd_fast', dp, rp, enforce, method='svd', zonefile=zf)
+        out['irmsd_fast_zonefile'], _ = SCx.call(pdb2sql, 'irmsd_fast', dp, rp, enforce, method='svd', zonefile=zf)
         if os.path.exists(zf): os.remove(zf)
     # derived scores
     try:
@@ -83,6 +91,32 @@ def has_reference_contact(ref):
                 return True
     return False
 
+def _axis(s):
+    """unit vector from the centroid of the first chain to the centroid of the second"""
+    ch = sorted({a['chainID'] for a in s})
+    cen = lambda c: [sum(a[k] for a in s if a['chainID'] == c) / max(1, sum(1 for a in s if a['chainID'] == c)) for k in 'xyz']
+    c0, c1 = cen(ch[0]), cen(ch[-1])
+    v = [c1[i] - c0[i] for i in range(3)]; n = math.sqrt(sum(x * x for x in v)) or 1.0
+    return ch, [x / n for x in v]
+
+def grazing_decoy(ref):
+    """the reference with its second chain pushed away along the inter-chain axis until the closest heavy atoms of the two
+    chains are 5.1 - 5.5 A apart: no heavy-atom contact is left, but an atom sitting 1 A nearer the partner would make one"""
+    ch, ax = _axis(ref)
+    heavy = [a for a in ref if a['name'][0] != 'H']
+    A = [a for a in heavy if a['chainID'] == ch[0]]; B = [a for a in heavy if a['chainID'] != ch[0]]
+    if not A or not B: return None
+    def mind(t):
+        return min(math.dist((a['x'], a['y'], a['z']), (b['x'] + t * ax[0], b['y'] + t * ax[1], b['z'] + t * ax[2])) for a in A for b in B)
+    t = 0.0
+    for _ in range(400):
+        d = mind(t)
+        if 5.1 < d < 5.5: break
+        t += 0.1 if d <= 5.1 else -0.1
+    else:
+        return None
+    return [dict(a) if a['chainID'] == ch[0] else dict(a, x=round(a['x'] + t * ax[0], 3), y=round(a['y'] + t * ax[1], 3), z=round(a['z'] + t * ax[2], 3)) for a in ref]
+
 def fits(atoms):
     return all(-999.0 < a[c] < 9999.0 for a in atoms for c in 'xyz') and all(-999 <= a['resSeq'] <= 9999 for a in atoms)
 
@@ -112,7 +146,7 @@ def variants(rng, ref, decoy):
         for a in s:
             o.append(a)
             if a['name'] == 'CA' and rng.random() < 0.7:
-                o.append(dict(a, name=rng.choice(['HA', 'H', 'HB2', 'HB3']), element='H', x=round(a['x'] + 0.9, 3), y=round(a['y'] - 0.4, 3)))
+                o.append(dict(a, name=rng.choice(['HA', 'H', 'HB2', 'HB3', 'HD11', 'HG21', 'HE21', 'HH12']), element='H', x=round(a['x'] + 0.9, 3), y=round(a['y'] - 0.4, 3)))
         for k2, a in enumerate(o):
             a['serial'] = k2 + 1
         return o
@@ -120,6 +154,20 @@ def variants(rng, ref, decoy):
     # the same hydrogens (same displacement) in the decoy for the residues it has
     hd = add_h([dict(a) for a in decoy])
     out.append(('hydrogens', href, hd, 0, ['fnat_fast', 'fnat_sql', 'clashes'], False))
+    def add_h_toward(s):
+        # hydrogens on every CA and N atom, 1 A nearer the partner chain along the inter-chain axis (names of 2 and 4 characters)
+        ch, ax = _axis(s)
+        o = []
+        for a in s:
+            o.append(a)
+            if a['name'] in ('CA', 'N'):
+                sg = 1.0 if a['chainID'] == ch[0] else -1.0
+                o.append(dict(a, name=('HA' if a['name'] == 'CA' else 'HD11'), element='H', x=round(a['x'] + sg * ax[0], 3), y=round(a['y'] + sg * ax[1], 3), z=round(a['z'] + sg * ax[2], 3)))
+        for k2, a in enumerate(o):
+            a['serial'] = k2 + 1
+        return o
+    if len({a['chainID'] for a in ref}) == 2 and len({a['chainID'] for a in decoy}) == 2:
+        out.append(('hydrogens-toward-partner', add_h_toward([dict(a) for a in ref]), add_h_toward([dict(a) for a in decoy]), 0, ['fnat_fast', 'fnat_sql', 'clashes'], False))
     for level in ('atoms', 'residues', 'chains'):
         out.append(('permuted-' + level, ref, gen_complex.permute(rng, decoy, level), 1, MEASURES, True))
     return out
@@ -165,6 +213,7 @@ def run_pair(ctx, pdb2sql, case):
     rp0 = gen_complex.write_pdb(r0, ref)
     dp0 = gen_complex.write_pdb(d0, decoy)
     results = []
+    FLAGCAR[0] = case.get('flagcar')
     base = {e: score_all(pdb2sql, dp0, rp0, e) for e in (False, True)}
     for name, r2, d2, tol, measures, perm in case['variants']:
         if not (fits(r2) and fits(d2)):
@@ -199,6 +248,10 @@ def explore(ctx, tier, rng, search=False):
             # near-native decoy (same atoms, 0.05 A noise): Fnat is well above 0, so that a change that loses the
             # reference contacts under a variant (stale per-name caches, renumbering) shows in the value
             decoy = gen_complex.deform(rng, [dict(a) for a in ref], 0.05)
+        if ref is not None and len(cases) % 5 == 4:
+            # grazing decoy: the chains just out of contact (5.1 - 5.5 A between the closest heavy atoms)
+            g = grazing_decoy(ref)
+            if g is not None: decoy = g
         if ref is None or not margin_safe(ref, decoy):
             rep.skipped['not-margin-safe'] += 1
             continue
@@ -206,6 +259,7 @@ def explore(ctx, tier, rng, search=False):
             rep.skipped['no-reference-contact'] += 1
             continue
         cases.append({'ref': ref, 'decoy': decoy, 'variants': variants(rng, ref, decoy)})
+        if len(cases) % 3 == 0: cases[-1]['flagcar'] = rng.choice(['npbool', 'int01'])      # the flag as np.bool_ / 0-1 integer
     for case in cases:
         try:
             results = run_pair(ctx, pdb2sql, case)
